@@ -257,6 +257,12 @@ def _worker(prog, entry, owner):
     if len(es) != 1:
         raise CheckerError("anchor %s::%s matched %d functions" % (owner, entry, len(es)))
     e = prog.default_args_worker(es[0])       # `from_sexpr(s)` as the default path of `from_sexpr_with_mapping(s, &s.variable_mapping())`
+    if e is not es[0]:
+        # the entry point's default path *is* the recursive worker (`from_sexpr(s)` = `from_sexpr_with(s, &s.variable_mapping())`)
+        bodies_e = [e] + [g for g in prog.lib_fns if g.npath.startswith(e.npath + "::{closure")]
+        if any(e in prog.resolve(cs.callee) for g in bodies_e for cs in g.terms.calls
+               if cs.callee.name == e.name and (cs.callee.local or getattr(cs.callee, "res_local", False))):
+            return e
     cands = []
     for f in prog.lib_fns:
         if f is e or "{closure" in f.npath:
@@ -362,6 +368,8 @@ def _numbering_source(prog, worker):
         return []
     e = prog.default_args_worker(es[0])
     key = es[0].npath + ":labels-from-variable-mapping"
+    if e is worker and es[0] is not worker:
+        e = es[0]               # the entry point forwards to the worker directly
     sites = [cs for cs in e.terms.calls if (cs.callee.local or getattr(cs.callee, "res_local", False)) and worker in prog.resolve(cs.callee)]
     if e is worker:
         return [inst("DP", key, UNDECIDED, e, None, "?the entry point is its own worker")]
